@@ -92,6 +92,8 @@ func init() {
 		t["time.UnixMilli"] = func(ex *Exec, fn *ssa.Function, a []Value) Value {
 			return ex.mkTime(c(ex).Mul(a[0].(*smt.Term), ex.intConst(1_000_000)))
 		}
+		t["runtime.GOMAXPROCS"] = func(ex *Exec, fn *ssa.Function, a []Value) Value { return ex.intConst(8) }
+		t["runtime.NumCPU"] = func(ex *Exec, fn *ssa.Function, a []Value) Value { return ex.intConst(8) }
 		t["(time.Time).UTC"] = func(ex *Exec, fn *ssa.Function, a []Value) Value { return a[0] }
 		t["(time.Time).Local"] = func(ex *Exec, fn *ssa.Function, a []Value) Value { return a[0] }
 		t["(time.Time).Round"] = func(ex *Exec, fn *ssa.Function, a []Value) Value { return a[0] }
